@@ -169,6 +169,8 @@ def gen(rng: Any, prop: str, tier: str) -> dict[str, Any]:
     extra_cols = [0]
     n_ops = rng.randint(10, 50)
     want_c06 = prop == "C06" or rng.random() < 0.3
+    paramstyle = rng.choice(["pyformat", "pyformat", "qmark"])
+    ph = "?" if paramstyle == "qmark" else "%s"
     for _ in range(n_ops):
         s, c, is_dict = rng.choice(cursors)
         key = (s, c)
@@ -200,6 +202,11 @@ def gen(rng: Any, prop: str, tier: str) -> dict[str, Any]:
             q = _query(rng, n_rows, is_dict, hz)
             if want_c06 and rng.random() < 0.3:
                 q = star()
+            elif rng.random() < 0.25 and " WHERE ID >= " in q["sql"]:
+                # the same query with a bound parameter
+                head, rest = q["sql"].split(" WHERE ID >= ", 1)
+                lo_txt, tail = rest.split(" ", 1)
+                q = dict(q, sql=f"{head} WHERE ID >= {ph} {tail}", params=[int(lo_txt)])
             ops.append({**base, "k": "execute", **q})
             executed.add(key)
         elif kind == "fetchone":
@@ -223,6 +230,8 @@ def gen(rng: Any, prop: str, tier: str) -> dict[str, Any]:
             ops.append({**base, "k": "describe", **q})
         elif kind == "nonquery":
             nq = _nonquery(rng, hz, in_txn.get(s, False), any(in_txn.values()))
+            if nq["kind"] == "insert" and rng.random() < 0.5:
+                nq = dict(nq, sql=f"INSERT INTO {DB}.{SC}.SIDE VALUES ({ph})", params=[rng.randint(1, 99)], kind="insert_params")
             if nq["kind"] == "begin":
                 in_txn[s] = True
             elif nq["kind"] in ("commit", "rollback"):
@@ -237,7 +246,7 @@ def gen(rng: Any, prop: str, tier: str) -> dict[str, Any]:
             else:
                 ops.append({"s": "b", "cur": 1, "dict": False, "k": "foreign", "sql": rng.choice([
                     f"CREATE OR REPLACE TABLE {DB}.{SC}.OTHER (X INT)", f"INSERT INTO {DB}.{SC}.SIDE VALUES ({rng.randint(1, 9)})"])})
-    return {"profile": NAME, "config": {"hazards": hz, "rows": rows, "two": two}, "strategy": "serial", "ops": ops}
+    return {"profile": NAME, "config": {"hazards": hz, "rows": rows, "two": two, "paramstyle": paramstyle}, "strategy": "serial", "ops": ops}
 
 
 def _nonquery(rng: Any, hz: dict[str, bool], in_txn: bool = False, any_txn: bool = False) -> dict[str, Any]:
@@ -329,11 +338,12 @@ class Machine:
             cur.execute(f"CREATE TABLE {DB}.{SC}.SIDE (X INT)")
             cur.execute(f"INSERT INTO {DB}.{SC}.SIDE VALUES (1), (2), (3)")
 
-    def reference(self, sql: str) -> list[tuple[Any, ...]] | None:
+    def reference(self, sql: str, params: Any = None) -> list[tuple[Any, ...]] | None:
         """Rows of the query as a quiet twin cursor's fetchall returns them (tuple cursor)."""
         with self.sim.quiet():
             try:
-                return self.world.fs.connect(database=DB, schema=SC).cursor().execute(sql).fetchall()
+                c = self.world.fs.connect(database=DB, schema=SC).cursor()
+                return (c.execute(sql, params) if params is not None else c.execute(sql)).fetchall()
             except BaseException:  # noqa: BLE001
                 return None
 
@@ -363,12 +373,15 @@ class Machine:
         brief = {"op_index": i, "op": {x: op.get(x) for x in ("s", "cur", "dict", "k", "n", "sql")}}
         if k in ("execute", "nonquery"):
             try:
-                cur.execute(op["sql"])
+                if op.get("params") is not None:
+                    cur.execute(op["sql"], op["params"])
+                else:
+                    cur.execute(op["sql"])
             except BaseException as e:  # noqa: BLE001
                 self.flag("C06" if k == "nonquery" else "C05", f"execute-raises/{op.get('kind', 'select')}/{type(e).__name__}", "a generated statement failed", {**brief, "error": exc_record(e)})
                 return
             if k == "execute":
-                ref = self.reference(op["sql"])
+                ref = self.reference(op["sql"], op.get("params"))
                 self.state[key] = {"kind": "select", "items": op["items"], "ids": op["ids"], "ref": ref, "idx": 0, "ncol": len(op["items"]), "dict": op.get("dict", False),
                                    "arraysize": st["arraysize"] if st else 1, "foreign_since_execute": False, "sibling_since_execute": False, "handed": 0, "sql": op["sql"], "star": op.get("star", False)}
                 if op.get("dup"):
@@ -599,7 +612,11 @@ def op_dup(st: dict[str, Any]) -> bool:
 
 
 def run(case: dict[str, Any]) -> dict[str, Any]:
+    import snowflake.connector
+
     sim = core.begin()
+    saved_style = snowflake.connector.paramstyle
+    snowflake.connector.paramstyle = case["config"].get("paramstyle", "pyformat")  # process-global, snapshot at connect (S5)
     m = Machine(case, sim)
     try:
         m.setup()
@@ -628,5 +645,6 @@ def run(case: dict[str, Any]) -> dict[str, Any]:
             "nontrivial": nontrivial_c05 or nontrivial_c06,
         }
     finally:
+        snowflake.connector.paramstyle = saved_style
         m.world.close()
         core.end()
